@@ -57,6 +57,21 @@ def pin_configs(country: str, tier: str):
     for comp in comps:
         out.append({comp: pin_value(country, comp, "max")})
     out.append({comp: pin_value(country, comp, "distinct") for comp in comps})
+    # every subset of the three main components (the other fields still have to be drawn)
+    main = [comp for comp in ("bank_code", "branch_code", "account_code") if comp in comps]
+    for r in range(2, len(main) + 1):
+        for sub in itertools.combinations(main, r):
+            out.append({comp: pin_value(country, comp, "distinct") for comp in sub})
+    # where the library computes national check digits: the main components pinned together over
+    # consecutive account numbers, so that every value of the computed digit occurs (also those
+    # for which no digit exists and the draw has to give up)
+    if f"{country}:default" in lib.checksum.algorithms and "account_code" in main:
+        c = reg.countries()[country]
+        s = c.span("account_code")
+        if s[1] - s[0] >= 2 and all(k == "n" for k in bases.classes_of(c)[s[1] - 2:s[1]]):
+            base = {comp: pin_value(country, comp, "distinct") for comp in main}
+            for i in range(12 if tier == "quick" else 100):
+                out.append(dict(base, account_code=base["account_code"][:-2] + f"{i:02d}", _default_run_only=True))
     if tier == "thorough":
         for r in range(2, len(comps)):
             for sub in itertools.combinations(comps, r):
@@ -149,10 +164,16 @@ def script_shard(args):
                                                           "answers": list(ch.answers)}, "BBAN", (k, v))
         part.stat("bban_configurations")
         return part.done()
-    pins = (pin_configs(country, tier) if country else [{}])[cfg_i]
+    pins = dict((pin_configs(country, tier) if country else [{}])[cfg_i])
+    default_only = pins.pop("_default_run_only", False)
     full = not pins  # every alternative at every choice point only in the unpinned form
     alts = choice.all_alternatives if full else choice.reduced_alternatives(12)
     tag = (country, use_registry, tuple(sorted(pins.items())))
+    if default_only:
+        # everything that matters is pinned: the default run and single deviations over 3 alternatives
+        explore_config(part, country, use_registry, pins, 1 if tier == "thorough" else 0,
+                       choice.reduced_alternatives(3), tag)
+        return part.done()
     np_, no_ = explore_config(part, country, use_registry, pins, 1, alts, tag)
     if tier == "thorough":
         explore_config(part, country, use_registry, pins, 2, choice.reduced_alternatives(4),
